@@ -16,7 +16,7 @@ MACHINE = [
 PROPS = {
     "C08": dict(
         probes=["arith:+", "arith:-", "arith:*", "arith:/", "arith:%", "arith:**", "arith:<<", "arith:>>", "unary:-",
-                "bitwise", "compare", "float", "eq", "expr_random"],
+                "bitwise", "compare", "float", "eq", "expr_random", "peephole"],
         explanation="scalar operator functions proved against the documented arithmetic (V: mathematical integers on the "
                     "verbatim bodies; K: bit-precise over the full i64/f64/bool domain on the real crate); dispatch of "
                     "every BinOperator/UnaryOperator and of every compound assignment to the right operator function (V); "
@@ -31,7 +31,7 @@ PROPS = {
             "panic-message formatting (Variable::string/debug) stubbed in K",
         ]),
     "C04": dict(
-        probes=["fold", "logic", "twins", "twins_random", "capture"],
+        probes=["fold", "logic", "twins", "twins_random", "capture", "peephole"],
         explanation="operator-level kernel of C04: each recreate-time function agrees with the run-time function on constant "
                     "operands, raises an early error only for an operation that fails whenever evaluated, and otherwise "
                     "rebuilds the instruction with the same operator and operands; branch pruning by IfElse::recreate "
@@ -41,7 +41,7 @@ PROPS = {
             "LocalVariables (HashMap) is abstract; Instruction::recreate of children is an uninterpreted function",
         ]),
     "C07": dict(
-        probes=["order", "control_random"],
+        probes=["order", "control_random", "peephole"],
         explanation="evaluation order of the composite instructions stated over the abstract state sequence: binary "
                     "operators (lhs, then rhs exactly once, errors stop), && / || short circuit, if / if-set / match "
                     "(only the chosen branch; arms and value candidates top to bottom), unary operators, set. Element "
@@ -53,7 +53,7 @@ PROPS = {
             "V-only: no counterexample; failures are replayed with generated probe programs",
         ]),
     "C09": dict(
-        probes=["index", "slice", "capture"],
+        probes=["index", "slice", "capture", "peephole"],
         explanation="at::exec and stdlib::len proved for all lengths and all i64 indices against Seq views (V) and on real "
                     "Arc<Array>/Arc<str> values for small lengths (K, bounded); slicing: Slicing::exec proved on the verbatim "
                     "body (V) to evaluate operand, start, stop, step in that order, to put each bound (converted by to_bound) "
